@@ -82,6 +82,10 @@ def in_quantifier(case):
                 return False, "kwargs key named like a hint"
             if len(row["pmf"]) != K:
                 return False, "PMF not over the actions"
+            if fmt in ("PM", "dPM") and not case.get("weird"):
+                ws = [dec(x) for x in row["pmf"]]
+                if any(w < 0 for w in ws) or abs(sum(ws) - 1) > 0.001:
+                    return False, "PMF does not sum to 1 within the documented tolerance .001"
             for a in row["actions"]:
                 k, x = kind_of(a)
                 if k == "n":
@@ -286,7 +290,11 @@ def monitor(case, learner, recs):
             bad("%s: learn raised %s: %s" % (where, type(rec["learn_exc"]).__name__, str(rec["learn_exc"])[:120]), "learn-raises-" + type(rec["learn_exc"]).__name__)
             break
         lcs = [l for l in learner.learn_calls[rec["nl0"]:rec["nl1"]] if l[0] != "rejected"]
-        if batch and layout == "single":
+        learn_batch = bool(case.get("learn_batch", layout != "single"))
+        # a learner whose learn takes batches may also be served row by row (the same content reaches it); one whose learn
+        # takes ONE interaction must be called once per row - whatever its predict does with batches
+        per_row = batch and (not learn_batch or (len(lcs) == n and not any(l[0] for l in lcs)))
+        if per_row:
             ok = len(lcs) == n and all((not l[0]) and same(l[1], dec(r["ctx"])) and same(l[2], acts[i][e[0]]) and same(l[4], e[1]) and same(l[5], e[2])
                                        and same(l[3], rec["rwd"][i]) for i, (l, r, e) in enumerate(zip(lcs, call, exp)))
         elif batch:
@@ -298,7 +306,7 @@ def monitor(case, learner, recs):
             ok = len(lcs) == 1 and same(lcs[0][5], wkw) and same(lcs[0][2], acts[0][exp[0][0]]) and same(lcs[0][4], exp[0][1])
         if not ok:
             bad("%s: learn received %s, expected the kwargs %s (and the predicted action/probability) per %s" % (
-                where, short([l[1:] for l in lcs]), short(wkw), "row" if layout == "single" and batch else "call"), "learn-args-wrong")
+                where, short([l[1:] for l in lcs]), short(wkw), "row" if per_row else "call"), "learn-args-wrong")
             break
     return fails
 
@@ -588,7 +596,7 @@ def gen_ctx(rng):
     return {"d": [[{"s": "c%d" % j}, {"i": rng.randint(0, 5)}] for j in range(rng.randint(1, 3))]}
 
 
-ACTION_KINDS = ["int01", "ints", "mixint", "bool", "fltp", "flt01", "fltmix", "str", "str1", "onehot_t", "onehot_l", "tup1", "tup2", "tup3", "lst2",
+ACTION_KINDS = ["strpre", "int01", "ints", "mixint", "bool", "fltp", "flt01", "fltmix", "str", "str1", "onehot_t", "onehot_l", "tup1", "tup2", "tup3", "lst2",
                 "dict1", "dict2", "dict3", "sparse1h", "mixed"]
 
 
@@ -609,6 +617,12 @@ def gen_actions(rng, kind, K):
         return rng.shuffle([{"i": 0}, {"f": [1, 1]}, {"f": [1, 2]}, {"i": 1}, {"f": [0, 1]}])[:K]
     if kind == "str":
         return [{"s": v} for v in rng.sample(["aa", "bb", "cat", "dog", "action", "pmf", "xy", "left", "0"], K)]
+    if kind == "strpre":
+        # strings that are prefixes of each other / two characters whose first character is itself offered (compass points)
+        pool = rng.choice([["N", "E", "NE", "SE", "S", "NW"], ["a", "ab", "abc", "b", "ba"], ["0", "1", "01", "10", "0.5"], ["x", "xy", "y", "yx", "xyz"]])
+        first = rng.choice([a for a in pool if len(a) == 2])
+        rest = [a for a in rng.shuffle(pool) if a != first]
+        return rng.shuffle([{"s": v} for v in ([first] + rest)[:max(K, 2)]])
     if kind == "str1":
         return [{"s": v} for v in rng.sample(["a", "b", "c", "d", "e", "1"], K)]
     if kind in ("onehot_t", "onehot_l"):
@@ -644,6 +658,15 @@ def gen_pmf(rng, K, style):
     if style == "mixed01":
         j = rng.below(K)
         return [({"i": 1} if i == j else {"f": [0, 1]}) for i in range(K)]
+    if style == "near1":
+        # sum off by d/65536, d spread over the documented tolerance [0, .001] (65/65536 < .001 < 66/65536); 16-bit entries keep
+        # every float operation of possible_pmf / choicew exact
+        den = 65536
+        d = rng.choice([1, 2, 7, 20, 40, 60, 64, 65]) * rng.choice([1, -1])
+        tot = den + d
+        cuts = sorted(rng.randint(0, tot) for _ in range(K - 1))
+        parts = [b - a for a, b in zip([0] + cuts, cuts + [tot])]
+        return [{"f": [p, den]} for p in parts]
     # dyadic entries summing to exactly 1 (float addition exact)
     den = rng.choice([4, 8, 16])
     cuts = sorted(rng.randint(0, den) for _ in range(K - 1))
@@ -666,13 +689,13 @@ def gen_case(rng, stress=0.3):
     K = rng.wchoice([(2, 1), (4, 2), (4, 3), (2, 4), (1, 5)])
     ncalls = rng.wchoice([(3, 1), (3, 2), (2, 3)])
     keys = rng.sample(["k", "info", "z", "n_obs", "a"] + (["pmf"] if rng.chance(0.1) else []), rng.wchoice([(1, 0), (3, 1), (2, 2), (1, 3)])) if kw else []
-    pmf_style = rng.wchoice([(3, "onehot_int"), (1, "onehot_flt"), (1, "mixed01"), (4, "dyadic")])
+    pmf_style = rng.wchoice([(3, "onehot_int"), (1, "onehot_flt"), (1, "mixed01"), (4, "dyadic"), (3, "near1")])
     if rng.chance(stress):
         # the heart of the disambiguation: answers whose items are 0/1-like next to action sets containing 0/1-like values
         fmt = rng.wchoice([(6, "PM"), (2, "A"), (2, "AP"), (1, "dPM")])
-        kind = rng.choice(["int01", "mixint", "bool", "flt01", "fltmix", "onehot_t", "onehot_l", "lst2", "tup2", "fltp"])
+        kind = rng.choice(["int01", "mixint", "bool", "flt01", "fltmix", "onehot_t", "onehot_l", "lst2", "tup2", "fltp", "strpre"])
         K = rng.wchoice([(1, 1), (6, 2), (3, 3)])
-        pmf_style = rng.wchoice([(5, "onehot_int"), (2, "mixed01"), (1, "onehot_flt"), (2, "dyadic")])
+        pmf_style = rng.wchoice([(5, "onehot_int"), (2, "mixed01"), (1, "onehot_flt"), (2, "dyadic"), (3, "near1")])
     if rng.chance(0.04):
         # row-major bare sparse actions with different feature names per action (recorded defect C15-F4)
         fmt, kw, kind = "A", False, "sparse1h"
@@ -683,6 +706,10 @@ def gen_case(rng, stress=0.3):
             "fmt": fmt, "kw": kw, "layout": layout, "batch": batch,
             "wrap": rng.choice(["tuple", "list"]), "pmf_type": rng.wchoice([(3, "list"), (1, "tuple")]),
             "nobatch": rng.wchoice([(3, "raise"), (1, "none"), (1, "keyerror")]), "e2e": rng.chance(0.35), "calls": []}
+    if batch and rng.chance(0.3):
+        # batch-awareness differs per method: predict native / learn per row, predict per row / learn native, same for score
+        case["learn_batch"] = rng.chance(0.5)
+        case["score_batch"] = rng.chance(0.5)
     if kw:
         # the kwargs payload in several Mapping flavours (SafeLearner.has_kwargs tests abc.Mapping)
         case["kwmap"] = rng.wchoice([(5, "dict"), (1, "ordered"), (1, "default"), (1, "subclass"), (2, "proxy"), (2, "plain"), (2, "chain")])
@@ -765,6 +792,14 @@ def gen_ambiguous(rng):
                     parts = [b - a for a, b in zip([0] + cuts, cuts + [den])]
                     row["pmf"] = [{"f": [p, den]} for p in parts]
                     row["actions"] = [{"f": [p, den]} for p in parts][:1] + row["actions"][1:]
+    elif r < 8 and rng.chance(0.5):
+        case["weird"] = "pmf-just-outside-tolerance"
+        for call in case["calls"]:
+            for row in call:
+                K = len(row["actions"])
+                tot = 65536 + rng.choice([66, 70, 200, -66, -300])
+                cuts = sorted(rng.randint(0, tot) for _ in range(K - 1))
+                row["pmf"] = [{"f": [b - a, 65536]} for a, b in zip([0] + cuts, cuts + [tot])]
     elif r < 8:
         case["weird"] = "pmf-not-normalised"
         for call in case["calls"]:
@@ -806,13 +841,14 @@ class C15(Property):
             "kwargs payloads in 7 Mapping flavours (50% dict, 15% dict subclasses, 30% non-dict Mappings); 30% of cases stress 0/1-like answers next to 0/1-like action sets; 35% also run through SequentialCB.evaluate; 15% of cases are outside "
             "the quantifier (copies/aliases of offered objects, malformed PMFs, hint-named features) and are checked by (A) only. "
             "after every predict/learn the same SafeLearner is asked score(context, actions, action) for the named action (even calls) or its neighbour (odd calls); "
-            "kwargs key order differs between rows in 25% of kwargs cases; "
+            "kwargs key order differs between rows in 25% of kwargs cases; in 30% of batched cases learn / score take batches independently of predict; "
+            "string action sets with prefixes of each other (compass points); 20% of PMFs sum to 1 +- d/65536 with d spread over the documented tolerance .001; "
             "non-trivial = in-quantifier case for which the real code returned a result for every call, with >= 2 rows overall or a PMF draw; "
             "distinct by canonical JSON of the case")
     trusted_base = [
         "CPython object identity: the harness numbers the objects the learner receives/returns by id(); ints in [-5,256], bools and None are compared by value by `is` in the model (small-int interning)",
         "coba.random.CobaRandom.choicew is the C05 model (finished property C05); PMF entries are dyadic so float sums are exact rationals",
-        "isclose(sum,1,abs_tol=.001) modelled as |sum-1| <= 1/1000 (generated sums are exactly 1 or off by >= 1/16)",
+        "isclose(sum,1,abs_tol=.001) modelled as |sum-1| <= 1/1000 (generated sums are 1 + d/65536 with |d| <= 65 inside, |d| >= 66 outside, or off by >= 1/16; 16-bit entries keep float sums exact)",
         "dict keys are strings (sparse features, kwargs, hints); numpy/torch answers and batches are excluded",
         "(A) also covers what learn is given (model runHistory vs the learner's learn log, kwargs compared as finite maps) and SafeLearner.score (model score vs the real result)",
         "which of the four proposed repairs the code under test contains is decided by four behavioural probes (variant()); the Lean model has the same four switches (Fixes)",
@@ -924,6 +960,8 @@ class C15(Property):
                                 "p": lref.enc(dec(row["p"])), "pmf": [lref.enc(dec(x)) for x in row["pmf"]],
                                 "kw": [[dec(k), lref.enc(dec(v))] for k, v in row["kwargs"]] if case.get("kw") else []})
             req["policy"] = pol
+            req["learn_batch"] = bool(case.get("learn_batch", case["layout"] != "single"))
+            req["score_batch"] = bool(case.get("score_batch", case["layout"] != "single"))
             if all("rwd" in rec for rec in recs):
                 req["rewards"] = [refs.enc(list(rec["rwd"]) if case.get("batch") else rec["rwd"]) for rec in recs]
             srecs = [rec for rec in recs if "score_arg" in rec]
@@ -1105,6 +1143,31 @@ def corpus_cases():
                     rows = [row(acts, (i + 1) % 3, i, kw=[[{"s": "step"}, {"i": i}], [{"s": "note"}, {"s": "x"}]]) for i in range(n)]
                     cs.append({"seed": 1, "fmt": fmt, "kw": True, "kwmap": flav, "layout": "single" if mode == "not" else mode, "batch": mode != "not",
                                "e2e": flav in ("proxy", "plain") and fmt in ("A", "AP"), "calls": [rows, rows[:1]]})
+    # third round of seeded mutants: prefix strings, per-method batch awareness, PMFs inside the documented tolerance
+    compass = [{"s": "NE"}, {"s": "N"}, {"s": "E"}, {"s": "SE"}]
+    for fmt in ("A", "AP", "dA"):
+        for kw in (False, True):
+            for mode in ("not", "single", "row", "col"):
+                for n in ((1,) if mode == "not" else (1, 2, 3)):
+                    rows = [row(compass, (3 * i) % 4, i, kw=[[{"s": "k"}, {"i": i}]] if kw else []) for i in range(n)]
+                    cs.append({"seed": 1, "fmt": fmt, "kw": kw, "layout": "single" if mode == "not" else mode, "batch": mode != "not",
+                               "calls": [rows, rows[:1]]})
+    for fmt in ("A", "AP", "PM", "dAP"):
+        for mode in ("single", "row", "col"):
+            for lb in (False, True):
+                for sb in (False, True):
+                    for n in (1, 2, 3):
+                        rows = [row(sets["str"], (i + 1) % 3, i) for i in range(n)]
+                        cs.append({"seed": 1, "fmt": fmt, "kw": True, "layout": mode, "batch": True, "learn_batch": lb, "score_batch": sb,
+                                   "calls": [rows, rows[:2]]})
+    for d in (1, -1, 33, -40, 65, -65):
+        for kw in (False, True):
+            for mode in ("not", "single", "row", "col"):
+                for n in ((1,) if mode == "not" else (1, 2, 3)):
+                    rows = [row(sets["str"], i % 3, i, pmf=[{"f": [21845 + (d if j == i % 3 else 0), 65536]} if j else {"f": [21846, 65536]} for j in range(3)])
+                            for i in range(n)]
+                    cs.append({"seed": 3, "fmt": "PM", "kw": kw, "layout": "single" if mode == "not" else mode, "batch": mode != "not",
+                               "calls": [rows, rows[:1]]})
     seen, out = set(), []
     for c in cs:
         k = json.dumps(c, sort_keys=True)
